@@ -1,6 +1,8 @@
 import Driver.Sexp
 import Driver.C12
 import Pcore.Model.LoaderConc
+import Pcore.Model.Lockset
+import Pcore.Generated.Locksets
 /-! Driver op for C13: `sched (tree NODE*) (threads (th STEP*)…) (sched T*)` — syntax and output in harness/c13/c13.go. -/
 namespace C13
 open Sx Pcore.LoaderSeq Pcore.LoaderConc
@@ -15,7 +17,20 @@ def logsStr (ths : List Thread) : String :=
     | t :: r => s!"{i}:[{" ; ".intercalate (t.log.map fun e => C12.ansStr e.1)}]" :: go (i + 1) r
   " ".intercalate (go 0 ths)
 
+def accStr (a : Pcore.Lockset.Access) : String :=
+  let hs := a.held.map fun (m, md) => m ++ (match md with | .r => ":r" | .w => ":w")
+  s!"{a.fn} {if a.write then "writes" else "reads"} {a.field} holding [{" ".intercalate hs}]"
+
+/-- `lockrace`: `none` when the regenerated lock-set table satisfies the discipline, otherwise the offending access
+    site and a conflicting one (the implementation side always answers `none`) -/
+def lockrace : String :=
+  match Pcore.Lockset.raceWitness Pcore.Generated.locksets with
+  | none => "none"
+  | some (a, none) => "undisciplined: " ++ accStr a
+  | some (a, some b) => "race: " ++ accStr a ++ " || " ++ accStr b
+
 def exec : List Sexp → String
+  | [.atom "lockrace"] => lockrace
   | [.atom "sched", .list (.atom "tree" :: nodes), .list (.atom "threads" :: ths), .list (.atom "sched" :: sch)] =>
     match C12.treeOf nodes with
     | none => "bad-op"
